@@ -158,6 +158,19 @@ pub fn to_witness_node(node: &ConstructNode, values: WitnessValues) -> Arc<Witne
     prune_witness_values(&populated)
 }
 
+/// Infer the types of a pruned redeem program again, from the pruned program alone.
+///
+/// Pruning replaces unused case branches by their CMR. Nodes that are shared between a hidden
+/// branch and the rest of the program keep the typing constraints of the hidden branch,
+/// so the pruned program can be typed more specifically than a decoder will ever infer from its
+/// encoding. Witness values of such a type are then encoded with bits that the decoder rejects.
+/// Inferring the types once more and shrinking the witness values accordingly removes the excess.
+pub fn retype_redeem_node(
+    node: &simplicity::RedeemNode<Elements>,
+) -> Result<Arc<simplicity::RedeemNode<Elements>>, simplicity::Error> {
+    prune_witness_values(&node.to_construct_node()).finalize_unpruned()
+}
+
 /// Shrink each populated witness value to the type that Simplicity infers for its node.
 ///
 /// Simplicity infers the type of a witness node from the surrounding program alone.
